@@ -6,7 +6,7 @@
 
    MAIN THEOREM [bw_sound] (shape of [rr_sound]).  Let wl be a workload of timers and polled callbacks (known or
    unknown priority) with well-formed arrival models whose step enumerators are exact ([wl_steps_ok]: the known
-   classes of C11 — plateau-ended Curve, ArrivalCurvePrefix — are excluded, as in [bw_exhaustive_any_build]) and
+   class of C11 — ArrivalCurvePrefix — is excluded, as in [bw_exhaustive_any_build]) and
    scalar WCETs, in which every callback i carries an assumed bound R_i with [e_bw dbg sb wl [i] limit = ROk R_i]
    (any dbg, any limit).  Then in EVERY run of the executor, for every legal budget placement of the reservation,
    every admissible arrival function, every execution time in [1, WCET] and every executor order that matches wl
@@ -466,7 +466,7 @@ Section BridgeBw.
   Qed.
 End BridgeBw.
 
-(* the step enumerators of the arrival models are exact (C11: no plateau-ended Curve, no ArrivalCurvePrefix) *)
+(* the step enumerators of the arrival models are exact (C11: no ArrivalCurvePrefix) *)
 Definition wl_steps_ok (wl : wlT) : Prop := forall c, c < length wl -> steps_exact_class (wl_ab wl c).
 
 Lemma wl_cb_steps : forall (wl : wlT), wl_ok wl -> wl_steps_ok wl ->
